@@ -61,23 +61,26 @@ package redis
 //@   ensures [C03] existing: r1 == errors.ErrExist && r0 != "" ==> readKey(verSource(r0)) == rkeyOf(record.Key)
 
 //@ func (c *client) Put(ctx context.Context, record kvs.Record) (kvs.Record, error)
-//@   props C02 C06
+//@   props C02 C03 C06
 //@   requires c != nil && c.rdb != nil
 //@   modifies issued, clock, encHas, encAt, encExpiring, rwkey, nsetnx, nset, nmset, ndel, ntxset, setnxWon, lastIntOK, lastInt
 //@   ensures !in(r0.Version, old(issued)) && forall(v, string, in(v, old(issued)) ==> in(v, issued))
 // [C03] "Put stores what was given under a new version": one SET for the record's key, the record handed back is the
 // one given but for the version
-//@   ensures [C03] stored: nset == old(nset) + 1 && nsetnx == old(nsetnx) && nmset == old(nmset) && ndel == old(ndel) && rwkey == rkeyOf(record.Key)
+//@   ensures nset == old(nset) + 1 && nsetnx == old(nsetnx) && nmset == old(nmset) && ndel == old(ndel) && rwkey == rkeyOf(record.Key)
 //@   ensures [C03] stored: r0.Key == record.Key && r0.ExpiresAt == record.ExpiresAt && r0.Value == record.Value
 
 //@ func (c *client) PutMany(ctx context.Context, records []kvs.Record) error
-//@   props C02 C06
+//@   props C02 C03 C06
 //@   requires c != nil && c.rdb != nil
 //@   modifies issued, clock, encHas, encAt, encExpiring, rwkey, nsetnx, nset, nmset, ndel, ntxset, setnxWon, lastIntOK, lastInt
+// [C03] the batch goes out either as one MSET (built in the order given) or record by record, in the order given,
+// through Put - never partly one way and partly the other (which would reorder writes to a repeated key)
+//@   ensures [C03] order: (nmset == old(nmset) || nset == old(nset)) && nmset <= old(nmset) + 1 && nsetnx == old(nsetnx) && ndel == old(ndel)
 //@   loop 1
-//@     invariant c != nil && c.rdb != nil && forall(v, string, in(v, old(issued)) ==> in(v, issued)) && records == records0 && 0 - 1 <= rangeindex && rangeindex <= len(records) - 1 && fresh(mset) && encExpiring == old(encExpiring)
+//@     invariant c != nil && c.rdb != nil && forall(v, string, in(v, old(issued)) ==> in(v, issued)) && records == records0 && 0 - 1 <= rangeindex && rangeindex <= len(records) - 1 && fresh(mset) && encExpiring == old(encExpiring) && nset == old(nset) && nmset == old(nmset) && nsetnx == old(nsetnx) && ndel == old(ndel)
 //@   loop 2
-//@     invariant c != nil && c.rdb != nil && forall(v, string, in(v, old(issued)) ==> in(v, issued)) && records == records0 && 0 - 1 <= rangeindex_2 && rangeindex_2 <= len(records) - 1
+//@     invariant c != nil && c.rdb != nil && forall(v, string, in(v, old(issued)) ==> in(v, issued)) && records == records0 && 0 - 1 <= rangeindex_2 && rangeindex_2 <= len(records) - 1 && nmset == old(nmset) && nsetnx == old(nsetnx) && ndel == old(ndel)
 
 // the optimistic transaction body of CasByVersion (run by rdb.Watch): the record written carries a new version
 //@ func (c *client) CasByVersion__1(tx *redis.Tx) error
